@@ -160,3 +160,22 @@ Example ex_sender_shutdown :
       (sender_runs cfg1 0 (Some (25 * ms)) [rq 0; rq (3 * ms); rq (40 * ms)]) =
   [ (1%nat, VShutdown, [20 * ms]); (1%nat, VShutdown, [20 * ms]); (1%nat, VShutdown, [20 * ms]) ].
 Proof. vm_compute. reflexivity. Qed.
+
+(* ---- round 5: non-vacuity of further hypotheses ----------------------------------------------------------------- *)
+(* the run interrupted by shutdown at 60 ms is kept by a persistent queue, the permanently rejected one is not *)
+Example ex_kept :
+  (request_kept (sc1 (Some (60 * ms)) None 0) script1, request_kept (sc1 None None 0) script1) = (true, false).
+Proof. vm_compute. reflexivity. Qed.
+
+(* the third attempt of script1 (90 ms against a 50 ms timeout) is cut by its context: hypotheses of
+   context_expiry_is_transient, and the run goes on after it *)
+Example ex_ctx_expiry :
+  att_done (sc1 None None 0) (110 * ms) = Some (160 * ms) /\ 160 * ms < 110 * ms + 90 * ms /\
+  (length (steps_of (sc1 None None 0) script1) > 3)%nat.
+Proof. vm_compute. repeat split; try reflexivity; lia. Qed.
+
+(* wake_timer_iff: its distinct-instants hypotheses hold for the first wait of the stop-at-60ms run *)
+Example ex_distinct_instants :
+  exists st, nth_error (steps_of (sc1 (Some (60 * ms)) None 0) script1) 0 = Some st /\
+             Z.max (s_end st) (60 * ms) <> s_end st + s_delay st /\ ctx_done (sc1 (Some (60 * ms)) None 0) = None.
+Proof. eexists. split; [vm_compute; reflexivity|]. split; [vm_compute; discriminate|reflexivity]. Qed.
